@@ -75,9 +75,10 @@ func init() {
 			{Fn: "H_pairs", Tier: "quick", Reach: []string{"end"}},
 			{Fn: "H_signed_literals", Fuel: 30_000_000, Tier: "quick", Reach: []string{"end"}},
 			{Fn: "H_casts", Fuel: 30_000_000, Tier: "quick", Reach: []string{"end"}},
+			{Fn: "H_prefix_chains", Fuel: 30_000_000, Tier: "quick", Reach: []string{"end"}},
 			{Fn: "H_triples", Tier: "thorough", Reach: []string{"end"}},
 		},
-		Rule:        rule + "; all ordered pairs (quick) and triples (thorough) of the 23 binary operators of the table plus 38 unary/ternary/??/assignment/concatenation forms and 4 shapes x 23 operators of sign-fused number literals (`$a -3 * $c`, `$a-3*$c`, `-2 ** $c`, `$a B -2 ** $c`) and 5 cast shapes x 2 casts x 23 operators (`(T)$a B $c`, `$a B (T)$c`, `-(T)$a B $c`, `(T)-$a B $c`, `!(T)$a B $c`); each is printed with minimal and with full parentheses, both parsed by the real parser and evaluated on symbolic 64-bit ints: two different parse trees are separated by a solver-chosen operand assignment",
+		Rule:        rule + "; all ordered pairs (quick) and triples (thorough) of the 23 binary operators of the table plus 38 unary/ternary/??/assignment/concatenation forms and 4 shapes x 23 operators of sign-fused number literals (`$a -3 * $c`, `$a-3*$c`, `-2 ** $c`, `$a B -2 ** $c`) and 5 cast shapes x 2 casts x 23 operators (`(T)$a B $c`, `$a B (T)$c`, `-(T)$a B $c`, `(T)-$a B $c`, `!(T)$a B $c`) and runs of two or three prefix operators out of {-, !, ~} alone, before and after every binary operator; each is printed with minimal and with full parentheses, both parsed by the real parser and evaluated on symbolic 64-bit ints: two different parse trees are separated by a solver-chosen operand assignment",
 		Assumptions: []string{"operands are ints (concrete pool {0,1,2,3,-1} where ** or . is involved: math.Pow / number formatting are not encoded)", "chains inside the non-associative comparison/equality classes are not part of the table"},
 		Outside:     []string{"the conversion performed by the cast functions of package std (casts are checked for their place in the parse tree with stand-in bool/int conversion functions registered under the names the cast syntax resolves)", "depth 4-5 trees", "float/bool/string operands"},
 	})
@@ -103,7 +104,7 @@ func init() {
 			{Fn: "H_alias", Tier: "quick", Reach: []string{"end"}},
 			{Fn: "H_reference", Tier: "quick", Reach: []string{"end"}},
 		},
-		Rule:        rule + "; (shape: list / string-keyed / nested) x (7 aliasing routes) x (10 mutations) x (2 directions) enumerated by solver-driven case split, element values and the written value are symbolic 64-bit ints; oracle = before/after snapshot of the other name inside the same run",
+		Rule:        rule + "; (shape: list / string-keyed / nested / nested with an empty inner list / list with a string key added later) x (13 aliasing routes: assignment, by-value parameter, return, into/out of a property, into/out of an element by literal, append, string key and int key, getter method / function / static method returning a stored array) x (12 mutations) x (2 directions) enumerated by solver-driven case split, element values and the written value are symbolic 64-bit ints; oracle = before/after snapshot of the other name inside the same run",
 		Assumptions: []string{"sort() cells use a concrete element pool (elements are compared through their string form)"},
 		Outside:     []string{"depth-3 shapes, mixed shapes", "std/php/array builtins (only the data methods)", "closure capture (excluded by the property)"},
 	})
